@@ -265,6 +265,32 @@ def emitCopy : Prog := ⟨1, [⟨.clone, [0], 2⟩], [1, 2]⟩
 def emitCompBody : Prog :=
   ⟨3, [⟨.itousize, [0], 1⟩, ⟨.ret, [1, 3, 2], 1⟩, ⟨.const 1, [], 1⟩, ⟨.iadd, [0, 5], 1⟩], [4, 6]⟩
 
+/-- loop plumbing of an array comprehension `array(e(x) for x in it)` as lowered by
+    `visit_DesugaredArrayComp` + `_build_generators`: a `TailLoop` over the iterator (its only
+    `just_input`) that carries `rest` values (the array under construction and the counter), calls
+    `__next__`, and branches on the `Option`: `nothing` → `Tag breakTag`, carried values passed
+    through (`nonePass`); `some (x, it')` → `Tag contTag it'`, carried values recomputed by `body`
+    from `[carried…, elt]`.  The comprehension's value is loop output `resultPort`. -/
+structure CompLoop where
+  initLen : Nat         -- `new_all_borrowed n`
+  initCount : Int       -- start value of the counter
+  arrPort : Nat         -- position of the array among the carried values
+  countPort : Nat       -- position of the counter among the carried values
+  nonePass : List Nat   -- `nothing` case: carried output k = carried input `nonePass[k]`
+  body : Prog           -- `some` case: inputs `[carried…, elt]`, outputs = the new carried values
+  breakTag : Nat
+  contTag : Nat
+  resultPort : Nat
+  deriving DecidableEq, Repr, Inhabited
+
+/-- the loop body with inputs `[array, count, elt]` (port order of the carried values) -/
+def emitCompBodyC : Prog :=
+  ⟨3, [⟨.itousize, [1], 1⟩, ⟨.ret, [0, 3, 2], 1⟩, ⟨.const 1, [], 1⟩, ⟨.iadd, [1, 5], 1⟩], [4, 6]⟩
+
+/-- what the compiler emits for a comprehension of static length `n` -/
+def emitCompLoop (n : Nat) : CompLoop :=
+  ⟨n, 0, 0, 1, [0, 1], emitCompBodyC, 1, 0, 0⟩
+
 /-! ## Semantic wrappers (what the Guppy-level functions do, through the emitted code) -/
 
 section sem
@@ -319,6 +345,37 @@ def compStep (st : Cells α × Int) (e : α) : M (Cells α × Int) := do
   | _ => throw .illTyped
 
 def compInit (n : Nat) : Cells α × Int := (newAllBorrowed n, 0)
+
+/-- initial carried values of a comprehension loop -/
+def CompLoop.init (L : CompLoop) : M (List (Val α)) :=
+  if L.arrPort = 0 ∧ L.countPort = 1 then pure [vArr (newAllBorrowed L.initLen), vInt L.initCount]
+  else if L.arrPort = 1 ∧ L.countPort = 0 then pure [vInt L.initCount, vArr (newAllBorrowed L.initLen)]
+  else throw .illTyped
+
+/-- the `TailLoop`: iterate `ArrayIter.__next__` (always the linear lowering, see `next`), `g` is the
+    element expression; `none` = fuel exhausted -/
+def runLoop (L : CompLoop) (g : α → α) : Nat → IterSt α → List (Val α) → M (Option (List (Val α)))
+  | 0, _, _ => pure none
+  | fuel + 1, st, carried => do
+    match ← next true st with
+    | none =>
+      if L.breakTag ≠ 1 then throw .illTyped else
+      let outs ← lookup carried L.nonePass
+      pure (some outs)
+    | some (x, st') =>
+      if L.contTag ≠ 0 then throw .illTyped else do
+      let carried' ← run id L.body (carried ++ [vElem (g x)])
+      runLoop L g fuel st' carried'
+
+/-- the whole comprehension over an array `xs` (owned, iterated from index 0) -/
+def runComp (L : CompLoop) (g : α → α) (fuel : Nat) (xs : Cells α) : M (Option (Val α)) := do
+  let init ← L.init (α := α)
+  match ← runLoop L g fuel ⟨xs, 0⟩ init with
+  | none => pure none
+  | some outs =>
+    match outs[L.resultPort]? with
+    | some v => pure (some v)
+    | none => throw .illTyped
 
 end sem
 
